@@ -339,6 +339,6 @@ def run_program(prog: dict) -> dict:
         loop.close()
     except Exception:  # noqa
         pass
-    return {"status": st, "ev": loop.events, "prog": prog,
+    return {"status": st, "ev": loop.events, "prog": prog, "tr2sim": dict(world.tr2sim),
             "simlog": [[(rq, rs) for rq, rs in s.log] for s in world.sims],
             "oplog": [s.export_log() for s in world.sims]}
